@@ -61,9 +61,31 @@ def gen_case(rng):
     return ops
 
 
+def frac_rt_case(rng):
+    """average response times that are not whole milliseconds (exits after 0..3 ms) against AvgRT thresholds between the
+    average's integer part and the average itself (seed C09-f: the average was truncated to whole milliseconds)"""
+    ops = ["clock"]
+    ops.append("sys.load rules=s0:avgrt:%s:%s" % (rng.choice(["no", "bbr"]), rng.choice(["1/2", "3/2", "5/2", "4/3", "7/4", "1/4", "2", "1", "9/4"])))
+    eid = 0
+    open_ = []
+    for _ in range(rng.randint(8, 30)):
+        x = rng.random()
+        if x < 0.3:
+            ops.append("adv ms=%d" % rng.choice([1, 1, 2, 3]))
+        elif x < 0.7 or not open_:
+            eid += 1
+            ops.append("build e=%d res=r0 batch=%d dir=%s" % (eid, rng.choice([1, 1, 2]), rng.choice(["in", "in", "in", "out"])))
+            open_.append(eid)
+        else:
+            ops.append("exit e=%d" % open_.pop(rng.randrange(len(open_))))
+        if rng.random() < 0.1:
+            ops.append("node res=__inbound__")
+    return ops
+
+
 def gen_own(rng, tier):
     n = 500 if tier == "quick" else 25000
-    return [gen_case(rng) for _ in range(n)]
+    return [gen_case(rng) if i % 10 != 3 else frac_rt_case(rng) for i in range(n)]
 
 
 def gen(rng, tier):
